@@ -1,10 +1,11 @@
+import re
 import os, re, sys
 import runner as R
 from props import *
 sys.path.insert(0, os.path.dirname(os.path.dirname(os.path.abspath(__file__))))
 import kernel_part
 
-LEAN_MODULES = ['C07', 'C07k']
+LEAN_MODULES = ['C07', 'C07k', 'C15']
 
 MANIFEST = dict(
     text="Proved in Lean over the single-source machine semantics extended with faults (every invocation of user code: ok | panic(error) | panic(value) | error return; "
@@ -154,6 +155,12 @@ def check(ctx):
     R.compare(ctx, rows, proj_all, 'C07 observer with nil callbacks: what the callbacks, the dropped-notification hook and the unhandled-error hook saw',
               nontrivial=lambda c, gd: True, max_report=2)
 
+    # failures of a LATER attempt / of a fallback (Catch, OnErrorResumeNextWith, Retry*, also when that attempt runs on a goroutine of
+    # its own and fails after the operator's Subscribe has returned) surface once as the Error of the output: the delivered trace of the
+    # re-subscribing operators' runs (loops and closed forms: RoProps/C15), read through C07's projection
+    rrows = [r for r in R.run_kind(ctx, 'resub') if re.search(r'\bop=(Catch|OnErrorResumeNextWith|Retry|RetryWithConfig)\b', r[0])]
+    R.compare(ctx, rrows, lambda d: (flag(d), strip_ctx(d.get('trace'))), 'C07 an error of a fallback / of a later attempt surfaces once (Catch, OnErrorResumeNextWith, Retry)',
+              nontrivial=lambda c, gd: gd.get('trace', '-') != '-', max_report=2)
     rows = R.run_kind(ctx, 'fault')
     R.compare(ctx, rows, proj_all, 'C07 fault injection (trace, drops, unhandled hook, escaped panics, teardown count, usability)',
               oracle=oracle_fault, nontrivial=nontrivial_fault)
